@@ -45,6 +45,13 @@ def load_known():
     return known
 
 
+def _clock_stats(out):
+    st = out.setdefault("stats", {})
+    st["clock_reads"] = sum(c[0] for c in runner.RUN_CLOCKS)
+    st["clock_jumps_fired"] = sum(c[1] for c in runner.RUN_CLOCKS)
+    st["sim_span_s"] = sum(c[2] for c in runner.RUN_CLOCKS)
+
+
 def _worker(args):
     prop, seed, index, src = args
     faulthandler.dump_traceback_later(600, exit=False)
@@ -53,8 +60,10 @@ def _worker(args):
         facts = tree.all_facts(src or runner.DEFAULT_SRC)
         case = mod.make_case(seed, facts, index)
         del runner.RUN_DIGESTS[:]
+        del runner.RUN_CLOCKS[:]
         out = mod.exec_case(case, facts, src=src)
         out["digests"] = list(runner.RUN_DIGESTS)
+        _clock_stats(out)
         out["index"], out["seed"] = index, seed
         if out["violations"]:
             out["case"] = case
@@ -72,8 +81,10 @@ def _worker_case(args):
         mod = mod_for(prop)
         facts = tree.all_facts(src or runner.DEFAULT_SRC)
         del runner.RUN_DIGESTS[:]
+        del runner.RUN_CLOCKS[:]
         out = mod.exec_case(case, facts, src=src)
         out["digests"] = list(runner.RUN_DIGESTS)
+        _clock_stats(out)
         out["index"], out["seed"] = case.get("index", -1), case.get("seed", 0)
         if out["violations"]:
             out["case"] = case
@@ -267,7 +278,8 @@ def build_evidence(prop, mod, tier, master, outs, stats, sigs, nt_sigs, violatio
     for p in wanted:
         probes.setdefault(p, 0)
     cov = {
-        "evaluations": len(outs),
+        "evaluations": stats.get("evaluations") or len(outs),
+        "cases": len(outs),
         "distinct_nontrivial": len(nt_sigs),
         "distinct_signatures": len(sigs),
         "rule": mod.RULE,
@@ -283,6 +295,10 @@ def build_evidence(prop, mod, tier, master, outs, stats, sigs, nt_sigs, violatio
         "faults_configured": {k[4:]: v for k, v in sorted(stats.items()) if k.startswith("cfg:")},
         "faults_fired": {k[6:]: v for k, v in sorted(stats.items()) if k.startswith("fault:")},
         "options": {k[4:]: v for k, v in sorted(stats.items()) if k.startswith("opt:")},
+        "option_matrix_cells": {"distinct": len([k for k in stats if k.startswith("matrix:")]), "top": dict(sorted(((k[7:], v) for k, v in stats.items() if k.startswith("matrix:")), key=lambda kv: -kv[1])[:12])},
+        "fault_kinds": {k[5:]: v for k, v in sorted(stats.items()) if k.startswith("kind:")},
+        "rejection_sites": {k[5:]: v for k, v in sorted(stats.items()) if k.startswith("site:")},
+        "modes": {k[5:]: v for k, v in sorted(stats.items()) if k.startswith("mode:")},
         "entry_points": {k[8:]: v for k, v in sorted(stats.items()) if k.startswith("country:")},
         "prestate": {k[9:]: v for k, v in sorted(stats.items()) if k.startswith("prestate:")},
         "probes": probes,
